@@ -97,10 +97,11 @@ func genCase(filters bool) func(t *rapid.T) Case {
 			}
 			// GetCFilter serialises callers on a sync.Mutex held across
 			// the network query; a goroutine waiting for a sync.Mutex
-			// is not durably blocked, which freezes the bubble's
-			// virtual clock. Concurrent callers are therefore only
-			// generated for GetBlock.
-			cl.Join = !filters && kit.Uni(t, "join", 4) == 0
+			// is not durably blocked, which would freeze the bubble's
+			// virtual clock. The verif-tag gate in front of that mutex
+			// queues the waiters on a channel, so concurrent callers
+			// are generated for both calls.
+			cl.Join = kit.Uni(t, "join", 4) == 0
 			return cl
 		})
 		c.Calls = rapid.SliceOfN(callGen, 1, 6).Draw(t, "calls")
